@@ -201,4 +201,544 @@ theorem mkHit_eq (wt : WText W) (kind : TokenKind) (s : Bytes) (n : Nat) (A : As
     (h : isWeightSuffix (s.drop n) = true) : mkHit wt kind s n = .hit ⟨kind, sufW wt (s.drop n)⟩ := by
   simp [mkHit, sliceFrom_asc A n (Nat.le_refl _), parseProbability_suffix wt _ h]
 
+/-! ### one-byte slices at a position of an ASCII prefix -/
+
+theorem take_one_drop (s : Bytes) (i x : Nat) (hx : s[i]? = some x) : (s.drop i).take 1 = [x] := by
+  rw [List.take_one, List.head?_drop, hx]; rfl
+
+theorem slice_one_asc {s : Bytes} {n : Nat} (A : AsciiUpTo s n) (i x : Nat) (hi : i + 1 ≤ n)
+    (hx : s[i]? = some x) : slice s i (i + 1) = .ok [x] := by
+  rw [slice_asc A i (i + 1) (by omega) hi, Nat.add_sub_cancel_left, take_one_drop s i x hx]
+
+theorem rankAt_asc {s : Bytes} {n : Nat} (A : AsciiUpTo s n) (i x r : Nat) (hi : i + 1 ≤ n)
+    (hx : s[i]? = some x) (hr : IsRank x r) : rankAt s i = .ok r := by
+  simp [rankAt, slice_one_asc A i x hi hx, parseRank_of_isRank hr]
+
+theorem sliceEq_asc {s : Bytes} {n : Nat} (A : AsciiUpTo s n) (i j x y : Nat) (hi : i + 1 ≤ n) (hj : j + 1 ≤ n)
+    (hx : s[i]? = some x) (hy : s[j]? = some y) : sliceEq s i j = .ok (x == y) := by
+  simp [sliceEq, slice_one_asc A i x hi hx, slice_one_asc A j y hj hy]
+
+/-! ### the seven branches, exactly, on the shape their recogniser pins -/
+
+/-- `s` / `o` (any other byte counts as `o`, as in the source's `if &v[2..3] == "s" .. else ..`) -/
+def soPair (x h k : Nat) : RankPair := if x = 115 then .suited h k else .ofsuit h k
+
+theorem brDoublePocket_eq (wt : WText W) (a b c d : Nat) (rest : Bytes) (ra rb rc rd : Nat)
+    (ha : IsRank a ra) (hb : IsRank b rb) (hc : IsRank c rc) (hd : IsRank d rd)
+    (hs : isWeightSuffix rest = true) :
+    brDoublePocket wt (a :: b :: 45 :: c :: d :: rest) =
+      if a = b ∧ c = d ∧ ra ≤ rc then .hit ⟨.doubleClosed (.pocket ra) rc, sufW wt rest⟩ else .next := by
+  have A : AsciiUpTo (a :: b :: 45 :: c :: d :: rest) 5 :=
+    asciiUpTo_append [a, b, 45, c, d] rest (by simp [ha.1, hb.1, hc.1, hd.1]) (isWeightSuffix_head rest hs)
+  have hre : reDoublePocket (a :: b :: 45 :: c :: d :: rest) = true := by
+    simp [reDoublePocket, ha.byte, hb.byte, hc.byte, hd.byte, hs]
+  have hm : ∀ kind, mkHit wt kind (a :: b :: 45 :: c :: d :: rest) 5 = .hit ⟨kind, sufW wt rest⟩ :=
+    fun kind => mkHit_eq wt kind _ 5 A hs
+  unfold brDoublePocket
+  rw [if_pos hre, sliceEq_asc A 0 1 a b (by omega) (by omega) rfl rfl,
+    sliceEq_asc A 3 4 c d (by omega) (by omega) rfl rfl,
+    rankAt_asc A 0 a ra (by omega) rfl ha, rankAt_asc A 3 c rc (by omega) rfl hc]
+  simp only [hm]
+  by_cases h1 : a = b <;> by_cases h2 : c = d <;> by_cases h3 : ra ≤ rc <;> simp [h1, h2, h3]
+
+theorem brDoubleRankPair_eq (wt : WText W) (a b x c d y : Nat) (rest : Bytes) (ra rb rc rd : Nat)
+    (ha : IsRank a ra) (hb : IsRank b rb) (hx : isSoByte x = true) (hc : IsRank c rc) (hd : IsRank d rd)
+    (hy : isSoByte y = true) (hs : isWeightSuffix rest = true) :
+    brDoubleRankPair wt (a :: b :: x :: 45 :: c :: d :: y :: rest) =
+      if a = c ∧ x = y ∧ ra < rb ∧ rb < rd then .hit ⟨.doubleClosed (soPair x ra rb) rd, sufW wt rest⟩
+      else .next := by
+  have hx' : x < 128 := by rcases (isSoByte_iff x).mp hx with h | h <;> omega
+  have hy' : y < 128 := by rcases (isSoByte_iff y).mp hy with h | h <;> omega
+  have A : AsciiUpTo (a :: b :: x :: 45 :: c :: d :: y :: rest) 7 :=
+    asciiUpTo_append [a, b, x, 45, c, d, y] rest (by simp [ha.1, hb.1, hc.1, hd.1, hx', hy'])
+      (isWeightSuffix_head rest hs)
+  have hre : reDoubleRankPair (a :: b :: x :: 45 :: c :: d :: y :: rest) = true := by
+    simp [reDoubleRankPair, ha.byte, hb.byte, hc.byte, hd.byte, hs, hx, hy]
+  have hm : ∀ kind, mkHit wt kind (a :: b :: x :: 45 :: c :: d :: y :: rest) 7 = .hit ⟨kind, sufW wt rest⟩ :=
+    fun kind => mkHit_eq wt kind _ 7 A hs
+  have hbd : (b == d) = (rb == rd) := by
+    have := hb.eq_iff hd
+    rw [Bool.eq_iff_iff]; simpa using this
+  unfold brDoubleRankPair
+  rw [if_pos hre, sliceEq_asc A 0 4 a c (by omega) (by omega) rfl rfl,
+    sliceEq_asc A 1 5 b d (by omega) (by omega) rfl rfl,
+    sliceEq_asc A 2 6 x y (by omega) (by omega) rfl rfl,
+    rankAt_asc A 0 a ra (by omega) rfl ha, rankAt_asc A 1 b rb (by omega) rfl hb,
+    rankAt_asc A 5 d rd (by omega) rfl hd, slice_one_asc A 2 x (by omega) rfl]
+  simp only [hm, soPair, hbd]
+  by_cases hcond : a = c ∧ x = y ∧ ra < rb ∧ rb < rd
+  · obtain ⟨rfl, rfl, h4, h5⟩ := hcond
+    have h2 : (rb == rd) = false := by simp; omega
+    by_cases h6 : x = 115 <;> simp [h2, h4, h5, h6]
+  · rw [if_neg hcond]
+    cases h1 : (a == c) <;> cases h2 : (rb == rd) <;> cases h3 : (x == y) <;> try rfl
+    simp only [beq_iff_eq] at h1 h3
+    have : ¬ (ra < rb ∧ rb < rd) := fun h => hcond ⟨h1, h3, h⟩
+    simp [this]
+
+theorem brBottomPocket_eq (wt : WText W) (a b : Nat) (rest : Bytes) (ra rb : Nat)
+    (ha : IsRank a ra) (hb : IsRank b rb) (hs : isWeightSuffix rest = true) :
+    brBottomPocket wt (a :: b :: 43 :: rest) =
+      if a = b then .hit ⟨.bottomClosed (.pocket ra), sufW wt rest⟩ else .next := by
+  have A : AsciiUpTo (a :: b :: 43 :: rest) 3 :=
+    asciiUpTo_append [a, b, 43] rest (by simp [ha.1, hb.1]) (isWeightSuffix_head rest hs)
+  have hre : reBottomPocket (a :: b :: 43 :: rest) = true := by
+    simp [reBottomPocket, ha.byte, hb.byte, hs]
+  have hm : ∀ kind, mkHit wt kind (a :: b :: 43 :: rest) 3 = .hit ⟨kind, sufW wt rest⟩ :=
+    fun kind => mkHit_eq wt kind _ 3 A hs
+  unfold brBottomPocket
+  rw [if_pos hre, sliceEq_asc A 0 1 a b (by omega) (by omega) rfl rfl,
+    rankAt_asc A 0 a ra (by omega) rfl ha]
+  simp only [hm]
+  by_cases h : a = b
+  · simp [h]
+  · have h2 : (a == b) = false := by simpa using h
+    simp [h, h2]
+
+theorem brBottomRankPair_eq (wt : WText W) (a b x : Nat) (rest : Bytes) (ra rb : Nat)
+    (ha : IsRank a ra) (hb : IsRank b rb) (hx : isSoByte x = true) (hs : isWeightSuffix rest = true) :
+    brBottomRankPair wt (a :: b :: x :: 43 :: rest) =
+      if ra < rb then .hit ⟨.bottomClosed (soPair x ra rb), sufW wt rest⟩ else .next := by
+  have hx' : x < 128 := by rcases (isSoByte_iff x).mp hx with h | h <;> omega
+  have A : AsciiUpTo (a :: b :: x :: 43 :: rest) 4 :=
+    asciiUpTo_append [a, b, x, 43] rest (by simp [ha.1, hb.1, hx']) (isWeightSuffix_head rest hs)
+  have hre : reBottomRankPair (a :: b :: x :: 43 :: rest) = true := by
+    simp [reBottomRankPair, ha.byte, hb.byte, hs, hx]
+  have hm : ∀ kind, mkHit wt kind (a :: b :: x :: 43 :: rest) 4 = .hit ⟨kind, sufW wt rest⟩ :=
+    fun kind => mkHit_eq wt kind _ 4 A hs
+  have hab : (a == b) = (ra == rb) := by
+    have := ha.eq_iff hb
+    rw [Bool.eq_iff_iff]; simpa using this
+  unfold brBottomRankPair
+  rw [if_pos hre, sliceEq_asc A 0 1 a b (by omega) (by omega) rfl rfl,
+    rankAt_asc A 0 a ra (by omega) rfl ha, rankAt_asc A 1 b rb (by omega) rfl hb,
+    slice_one_asc A 2 x (by omega) rfl]
+  simp only [hm, soPair, hab]
+  by_cases h : ra < rb
+  · have h2 : (ra == rb) = false := by simp; omega
+    by_cases h6 : x = 115 <;> simp [h, h2, h6]
+  · rw [if_neg h]
+    cases h2 : (ra == rb) <;> simp [h]
+
+theorem brSinglePocket_eq (wt : WText W) (a b : Nat) (rest : Bytes) (ra rb : Nat)
+    (ha : IsRank a ra) (hb : IsRank b rb) (hs : isWeightSuffix rest = true) :
+    brSinglePocket wt (a :: b :: rest) =
+      if a = b then .hit ⟨.singleRank (.pocket ra), sufW wt rest⟩ else .next := by
+  have A : AsciiUpTo (a :: b :: rest) 2 :=
+    asciiUpTo_append [a, b] rest (by simp [ha.1, hb.1]) (isWeightSuffix_head rest hs)
+  have hre : reSinglePocket (a :: b :: rest) = true := by
+    simp [reSinglePocket, ha.byte, hb.byte, hs]
+  have hm : ∀ kind, mkHit wt kind (a :: b :: rest) 2 = .hit ⟨kind, sufW wt rest⟩ :=
+    fun kind => mkHit_eq wt kind _ 2 A hs
+  unfold brSinglePocket
+  rw [if_pos hre, sliceEq_asc A 0 1 a b (by omega) (by omega) rfl rfl,
+    rankAt_asc A 0 a ra (by omega) rfl ha]
+  simp only [hm]
+  by_cases h : a = b
+  · simp [h]
+  · have h2 : (a == b) = false := by simpa using h
+    simp [h, h2]
+
+theorem brSingleRankPair_eq (wt : WText W) (a b x : Nat) (rest : Bytes) (ra rb : Nat)
+    (ha : IsRank a ra) (hb : IsRank b rb) (hx : isSoByte x = true) (hs : isWeightSuffix rest = true) :
+    brSingleRankPair wt (a :: b :: x :: rest) =
+      if ra ≠ rb then .hit ⟨.singleRank (soPair x ra rb), sufW wt rest⟩ else .next := by
+  have hx' : x < 128 := by rcases (isSoByte_iff x).mp hx with h | h <;> omega
+  have A : AsciiUpTo (a :: b :: x :: rest) 3 :=
+    asciiUpTo_append [a, b, x] rest (by simp [ha.1, hb.1, hx']) (isWeightSuffix_head rest hs)
+  have hre : reSingleRankPair (a :: b :: x :: rest) = true := by
+    simp [reSingleRankPair, ha.byte, hb.byte, hs, hx]
+  have hm : ∀ kind, mkHit wt kind (a :: b :: x :: rest) 3 = .hit ⟨kind, sufW wt rest⟩ :=
+    fun kind => mkHit_eq wt kind _ 3 A hs
+  have hab : (a == b) = (ra == rb) := by
+    have := ha.eq_iff hb
+    rw [Bool.eq_iff_iff]; simpa using this
+  unfold brSingleRankPair
+  rw [if_pos hre, sliceEq_asc A 0 1 a b (by omega) (by omega) rfl rfl,
+    rankAt_asc A 0 a ra (by omega) rfl ha, rankAt_asc A 1 b rb (by omega) rfl hb,
+    slice_one_asc A 2 x (by omega) rfl]
+  simp only [hm, soPair, hab]
+  by_cases h : ra = rb
+  · simp [h]
+  · have h2 : (ra == rb) = false := by simpa using h
+    by_cases h6 : x = 115 <;> simp [h, h2, h6]
+
+theorem brSingleCardPair_eq (wt : WText W) (a s b t : Nat) (rest : Bytes) (ra sa rb sb : Nat)
+    (ha : IsRank a ra) (hsa : IsSuit s sa) (hb : IsRank b rb) (hsb : IsSuit t sb)
+    (hs : isWeightSuffix rest = true) :
+    brSingleCardPair wt (a :: s :: b :: t :: rest) =
+      if (⟨ra, sa⟩ : Card) ≠ ⟨rb, sb⟩ then .hit ⟨.singleCard (mkPair ⟨ra, sa⟩ ⟨rb, sb⟩), sufW wt rest⟩
+      else .next := by
+  have A : AsciiUpTo (a :: s :: b :: t :: rest) 4 :=
+    asciiUpTo_append [a, s, b, t] rest (by simp [ha.1, hb.1, hsa.1, hsb.1]) (isWeightSuffix_head rest hs)
+  have hre : reSingleCardPair (a :: s :: b :: t :: rest) = true := by
+    simp [reSingleCardPair, ha.byte, hb.byte, hsa.byte, hsb.byte, hs]
+  have hm : ∀ kind, mkHit wt kind (a :: s :: b :: t :: rest) 4 = .hit ⟨kind, sufW wt rest⟩ :=
+    fun kind => mkHit_eq wt kind _ 4 A hs
+  have hsl : slice (a :: s :: b :: t :: rest) 0 4 = .ok [a, s, b, t] := by
+    rw [slice_asc A 0 4 (by omega) (by omega)]; rfl
+  have hp : parsePair [a, s, b, t] = .ok (mkPair ⟨ra, sa⟩ ⟨rb, sb⟩) := by
+    rw [C14.parsePair_four _ _ _ _ ha.1 hsa.1 hb.1 hsb.1, C13.parseCard_two _ _ ha.1 hsa.1,
+      C13.parseCard_two _ _ hb.1 hsb.1, ha.2, hsa.2, hb.2, hsb.2]
+    rfl
+  have hne : ((mkPair ⟨ra, sa⟩ ⟨rb, sb⟩).fst != (mkPair ⟨ra, sa⟩ ⟨rb, sb⟩).snd)
+      = decide ((⟨ra, sa⟩ : Card) ≠ ⟨rb, sb⟩) := by
+    rw [C14.mkPair_eq]
+    by_cases h : (⟨ra, sa⟩ : Card) = ⟨rb, sb⟩
+    · rw [h]; split <;> simp
+    · split <;> simp [h, Ne.symm h] <;> exact fun e => h e.symm
+  unfold brSingleCardPair
+  rw [if_pos hre, hsl]
+  simp only [hp, hm, hne]
+  by_cases h : (⟨ra, sa⟩ : Card) = ⟨rb, sb⟩ <;> simp [h]
+
+/-! ### shapes pinned by the recognisers -/
+
+theorem reDoublePocket_shape (s : Bytes) (h : reDoublePocket s = true) :
+    ∃ a b c d rest ra rb rc rd, s = a :: b :: 45 :: c :: d :: rest ∧ IsRank a ra ∧ IsRank b rb
+      ∧ IsRank c rc ∧ IsRank d rd ∧ isWeightSuffix rest = true := by
+  unfold reDoublePocket at h
+  split at h
+  · simp only [Bool.and_eq_true, isRankByte_iff] at h
+    obtain ⟨⟨⟨⟨⟨ra, ha⟩, ⟨rb, hb⟩⟩, ⟨rc, hc⟩⟩, ⟨rd, hd⟩⟩, hs⟩ := h
+    exact ⟨_, _, _, _, _, ra, rb, rc, rd, rfl, ha, hb, hc, hd, hs⟩
+  · cases h
+
+theorem reDoubleRankPair_shape (s : Bytes) (h : reDoubleRankPair s = true) :
+    ∃ a b x c d y rest ra rb rc rd, s = a :: b :: x :: 45 :: c :: d :: y :: rest ∧ IsRank a ra ∧ IsRank b rb
+      ∧ isSoByte x = true ∧ IsRank c rc ∧ IsRank d rd ∧ isSoByte y = true ∧ isWeightSuffix rest = true := by
+  unfold reDoubleRankPair at h
+  split at h
+  · simp only [Bool.and_eq_true, isRankByte_iff] at h
+    obtain ⟨⟨⟨⟨⟨⟨⟨ra, ha⟩, ⟨rb, hb⟩⟩, hx⟩, ⟨rc, hc⟩⟩, ⟨rd, hd⟩⟩, hy⟩, hs⟩ := h
+    exact ⟨_, _, _, _, _, _, _, ra, rb, rc, rd, rfl, ha, hb, hx, hc, hd, hy, hs⟩
+  · cases h
+
+theorem reBottomPocket_shape (s : Bytes) (h : reBottomPocket s = true) :
+    ∃ a b rest ra rb, s = a :: b :: 43 :: rest ∧ IsRank a ra ∧ IsRank b rb ∧ isWeightSuffix rest = true := by
+  unfold reBottomPocket at h
+  split at h
+  · simp only [Bool.and_eq_true, isRankByte_iff] at h
+    obtain ⟨⟨⟨ra, ha⟩, ⟨rb, hb⟩⟩, hs⟩ := h
+    exact ⟨_, _, _, ra, rb, rfl, ha, hb, hs⟩
+  · cases h
+
+theorem reBottomRankPair_shape (s : Bytes) (h : reBottomRankPair s = true) :
+    ∃ a b x rest ra rb, s = a :: b :: x :: 43 :: rest ∧ IsRank a ra ∧ IsRank b rb ∧ isSoByte x = true
+      ∧ isWeightSuffix rest = true := by
+  unfold reBottomRankPair at h
+  split at h
+  · simp only [Bool.and_eq_true, isRankByte_iff] at h
+    obtain ⟨⟨⟨⟨ra, ha⟩, ⟨rb, hb⟩⟩, hx⟩, hs⟩ := h
+    exact ⟨_, _, _, _, ra, rb, rfl, ha, hb, hx, hs⟩
+  · cases h
+
+theorem reSinglePocket_shape (s : Bytes) (h : reSinglePocket s = true) :
+    ∃ a b rest ra rb, s = a :: b :: rest ∧ IsRank a ra ∧ IsRank b rb ∧ isWeightSuffix rest = true := by
+  unfold reSinglePocket at h
+  split at h
+  · simp only [Bool.and_eq_true, isRankByte_iff] at h
+    obtain ⟨⟨⟨ra, ha⟩, ⟨rb, hb⟩⟩, hs⟩ := h
+    exact ⟨_, _, _, ra, rb, rfl, ha, hb, hs⟩
+  · cases h
+
+theorem reSingleRankPair_shape (s : Bytes) (h : reSingleRankPair s = true) :
+    ∃ a b x rest ra rb, s = a :: b :: x :: rest ∧ IsRank a ra ∧ IsRank b rb ∧ isSoByte x = true
+      ∧ isWeightSuffix rest = true := by
+  unfold reSingleRankPair at h
+  split at h
+  · simp only [Bool.and_eq_true, isRankByte_iff] at h
+    obtain ⟨⟨⟨⟨ra, ha⟩, ⟨rb, hb⟩⟩, hx⟩, hs⟩ := h
+    exact ⟨_, _, _, _, ra, rb, rfl, ha, hb, hx, hs⟩
+  · cases h
+
+theorem reSingleCardPair_shape (s : Bytes) (h : reSingleCardPair s = true) :
+    ∃ a x b y rest ra sa rb sb, s = a :: x :: b :: y :: rest ∧ IsRank a ra ∧ IsSuit x sa ∧ IsRank b rb
+      ∧ IsSuit y sb ∧ isWeightSuffix rest = true := by
+  unfold reSingleCardPair at h
+  split at h
+  · simp only [Bool.and_eq_true, isRankByte_iff, isSuitByte_iff] at h
+    obtain ⟨⟨⟨⟨⟨ra, ha⟩, ⟨sa, hsa⟩⟩, ⟨rb, hb⟩⟩, ⟨sb, hsb⟩⟩, hs⟩ := h
+    exact ⟨_, _, _, _, _, ra, sa, rb, sb, rfl, ha, hsa, hb, hsb, hs⟩
+  · cases h
+
+/-- a branch whose recogniser fails falls through -/
+theorem brDoublePocket_next (wt : WText W) (s : Bytes) (h : reDoublePocket s = false) :
+    brDoublePocket wt s = .next := by simp [brDoublePocket, h]
+theorem brDoubleRankPair_next (wt : WText W) (s : Bytes) (h : reDoubleRankPair s = false) :
+    brDoubleRankPair wt s = .next := by simp [brDoubleRankPair, h]
+theorem brBottomPocket_next (wt : WText W) (s : Bytes) (h : reBottomPocket s = false) :
+    brBottomPocket wt s = .next := by simp [brBottomPocket, h]
+theorem brBottomRankPair_next (wt : WText W) (s : Bytes) (h : reBottomRankPair s = false) :
+    brBottomRankPair wt s = .next := by simp [brBottomRankPair, h]
+theorem brSinglePocket_next (wt : WText W) (s : Bytes) (h : reSinglePocket s = false) :
+    brSinglePocket wt s = .next := by simp [brSinglePocket, h]
+theorem brSingleRankPair_next (wt : WText W) (s : Bytes) (h : reSingleRankPair s = false) :
+    brSingleRankPair wt s = .next := by simp [brSingleRankPair, h]
+theorem brSingleCardPair_next (wt : WText W) (s : Bytes) (h : reSingleCardPair s = false) :
+    brSingleCardPair wt s = .next := by simp [brSingleCardPair, h]
+
+/-! ### what a parsed token looks like -/
+
+/-- the order conditions `from_str` establishes and `into_iter` / `Display` rely on -/
+def TokenOk : TokenKind → Prop
+  | .doubleClosed (.pocket top) bottom => top ≤ bottom ∧ bottom < 13
+  | .doubleClosed (.suited h kt) kb => h < kt ∧ kt < kb ∧ kb < 13
+  | .doubleClosed (.ofsuit h kt) kb => h < kt ∧ kt < kb ∧ kb < 13
+  | .bottomClosed (.pocket r) => r < 13
+  | .bottomClosed (.suited h k) => h < k ∧ k < 13
+  | .bottomClosed (.ofsuit h k) => h < k ∧ k < 13
+  | .singleRank (.pocket r) => r < 13
+  | .singleRank (.suited x y) => x ≠ y ∧ x < 13 ∧ y < 13
+  | .singleRank (.ofsuit x y) => x ≠ y ∧ x < 13 ∧ y < 13
+  | .singleCard cp => ∃ l r : Card, l.valid = true ∧ r.valid = true ∧ l ≠ r ∧ cp = mkPair l r
+
+theorem tokenOk_double_so (x h kt kb : Nat) (h1 : h < kt) (h2 : kt < kb) (h3 : kb < 13) :
+    TokenOk (.doubleClosed (soPair x h kt) kb) := by
+  unfold soPair; split <;> exact ⟨h1, h2, h3⟩
+theorem tokenOk_bottom_so (x h k : Nat) (h1 : h < k) (h2 : k < 13) :
+    TokenOk (.bottomClosed (soPair x h k)) := by
+  unfold soPair; split <;> exact ⟨h1, h2⟩
+theorem tokenOk_single_so (x a b : Nat) (h1 : a ≠ b) (h2 : a < 13) (h3 : b < 13) :
+    TokenOk (.singleRank (soPair x a b)) := by
+  unfold soPair; split <;> exact ⟨h1, h2, h3⟩
+
+/-- outcome of a branch: falls through, or hits with a well-formed kind and the weight of a weight suffix -/
+def BranchOk (wt : WText W) (r : Branch W) : Prop :=
+  r = .next ∨ ∃ kind rest, r = .hit ⟨kind, sufW wt rest⟩ ∧ TokenOk kind ∧ isWeightSuffix rest = true
+
+theorem brDoublePocket_ok (wt : WText W) (s : Bytes) : BranchOk wt (brDoublePocket wt s) := by
+  cases hre : reDoublePocket s with
+  | false => exact .inl (brDoublePocket_next wt s hre)
+  | true =>
+    obtain ⟨a, b, c, d, rest, ra, rb, rc, rd, rfl, ha, hb, hc, hd, hs⟩ := reDoublePocket_shape s hre
+    rw [brDoublePocket_eq wt a b c d rest ra rb rc rd ha hb hc hd hs]
+    split
+    · rename_i h
+      exact .inr ⟨_, rest, rfl, ⟨h.2.2, hc.lt⟩, hs⟩
+    · exact .inl rfl
+
+theorem brDoubleRankPair_ok (wt : WText W) (s : Bytes) : BranchOk wt (brDoubleRankPair wt s) := by
+  cases hre : reDoubleRankPair s with
+  | false => exact .inl (brDoubleRankPair_next wt s hre)
+  | true =>
+    obtain ⟨a, b, x, c, d, y, rest, ra, rb, rc, rd, rfl, ha, hb, hx, hc, hd, hy, hs⟩ :=
+      reDoubleRankPair_shape s hre
+    rw [brDoubleRankPair_eq wt a b x c d y rest ra rb rc rd ha hb hx hc hd hy hs]
+    split
+    · rename_i h
+      exact .inr ⟨_, rest, rfl, tokenOk_double_so x ra rb rd h.2.2.1 h.2.2.2 hd.lt, hs⟩
+    · exact .inl rfl
+
+theorem brBottomPocket_ok (wt : WText W) (s : Bytes) : BranchOk wt (brBottomPocket wt s) := by
+  cases hre : reBottomPocket s with
+  | false => exact .inl (brBottomPocket_next wt s hre)
+  | true =>
+    obtain ⟨a, b, rest, ra, rb, rfl, ha, hb, hs⟩ := reBottomPocket_shape s hre
+    rw [brBottomPocket_eq wt a b rest ra rb ha hb hs]
+    split
+    · exact .inr ⟨_, rest, rfl, ha.lt, hs⟩
+    · exact .inl rfl
+
+theorem brBottomRankPair_ok (wt : WText W) (s : Bytes) : BranchOk wt (brBottomRankPair wt s) := by
+  cases hre : reBottomRankPair s with
+  | false => exact .inl (brBottomRankPair_next wt s hre)
+  | true =>
+    obtain ⟨a, b, x, rest, ra, rb, rfl, ha, hb, hx, hs⟩ := reBottomRankPair_shape s hre
+    rw [brBottomRankPair_eq wt a b x rest ra rb ha hb hx hs]
+    split
+    · rename_i h
+      exact .inr ⟨_, rest, rfl, tokenOk_bottom_so x ra rb h hb.lt, hs⟩
+    · exact .inl rfl
+
+theorem brSinglePocket_ok (wt : WText W) (s : Bytes) : BranchOk wt (brSinglePocket wt s) := by
+  cases hre : reSinglePocket s with
+  | false => exact .inl (brSinglePocket_next wt s hre)
+  | true =>
+    obtain ⟨a, b, rest, ra, rb, rfl, ha, hb, hs⟩ := reSinglePocket_shape s hre
+    rw [brSinglePocket_eq wt a b rest ra rb ha hb hs]
+    split
+    · exact .inr ⟨_, rest, rfl, ha.lt, hs⟩
+    · exact .inl rfl
+
+theorem brSingleRankPair_ok (wt : WText W) (s : Bytes) : BranchOk wt (brSingleRankPair wt s) := by
+  cases hre : reSingleRankPair s with
+  | false => exact .inl (brSingleRankPair_next wt s hre)
+  | true =>
+    obtain ⟨a, b, x, rest, ra, rb, rfl, ha, hb, hx, hs⟩ := reSingleRankPair_shape s hre
+    rw [brSingleRankPair_eq wt a b x rest ra rb ha hb hx hs]
+    split
+    · rename_i h
+      exact .inr ⟨_, rest, rfl, tokenOk_single_so x ra rb h ha.lt hb.lt, hs⟩
+    · exact .inl rfl
+
+theorem brSingleCardPair_ok (wt : WText W) (s : Bytes) : BranchOk wt (brSingleCardPair wt s) := by
+  cases hre : reSingleCardPair s with
+  | false => exact .inl (brSingleCardPair_next wt s hre)
+  | true =>
+    obtain ⟨a, x, b, y, rest, ra, sa, rb, sb, rfl, ha, hsa, hb, hsb, hs⟩ := reSingleCardPair_shape s hre
+    rw [brSingleCardPair_eq wt a x b y rest ra sa rb sb ha hsa hb hsb hs]
+    split
+    · rename_i h
+      refine .inr ⟨_, rest, rfl, ⟨⟨ra, sa⟩, ⟨rb, sb⟩, ?_, ?_, h, rfl⟩, hs⟩
+      · simp [Card.valid, ha.lt, hsa.lt]
+      · simp [Card.valid, hb.lt, hsb.lt]
+    · exact .inl rfl
+
+/-- `parseToken` is the cascade of the seven branches -/
+theorem parseToken_unfold (wt : WText W) (s : Bytes) :
+    parseToken wt s = parseToken.go s [brDoublePocket wt, brDoubleRankPair wt, brBottomPocket wt,
+      brBottomRankPair wt, brSinglePocket wt, brSingleRankPair wt, brSingleCardPair wt] := rfl
+
+theorem parseToken_go_ok (wt : WText W) (s : Bytes) (bs : List (Bytes → Branch W))
+    (h : ∀ b ∈ bs, BranchOk wt (b s)) :
+    parseToken.go s bs = .err ∨ ∃ kind rest, parseToken.go s bs = .ok ⟨kind, sufW wt rest⟩ ∧ TokenOk kind
+      ∧ isWeightSuffix rest = true := by
+  induction bs with
+  | nil => exact .inl rfl
+  | cons b bs ih =>
+    rcases h b (List.mem_cons_self) with hb | ⟨kind, rest, hb, hk, hs⟩
+    · simp only [parseToken.go, hb]
+      exact ih (fun b' hb' => h b' (List.mem_cons_of_mem _ hb'))
+    · simp only [parseToken.go, hb]
+      exact .inr ⟨kind, rest, rfl, hk, hs⟩
+
+/-- **the parsed token**: an error, or a well-formed kind with the weight of a weight suffix. Never a panic. -/
+theorem parseToken_ok (wt : WText W) (s : Bytes) :
+    parseToken wt s = .err ∨ ∃ kind rest, parseToken wt s = .ok ⟨kind, sufW wt rest⟩ ∧ TokenOk kind
+      ∧ isWeightSuffix rest = true := by
+  rw [parseToken_unfold]
+  apply parseToken_go_ok
+  intro b hb
+  simp only [List.mem_cons, List.mem_nil_iff, or_false] at hb
+  rcases hb with rfl | rfl | rfl | rfl | rfl | rfl | rfl
+  · exact brDoublePocket_ok wt s
+  · exact brDoubleRankPair_ok wt s
+  · exact brBottomPocket_ok wt s
+  · exact brBottomRankPair_ok wt s
+  · exact brSinglePocket_ok wt s
+  · exact brSingleRankPair_ok wt s
+  · exact brSingleCardPair_ok wt s
+
+theorem parseToken_ne_panic (wt : WText W) (s : Bytes) : parseToken wt s ≠ .panic := by
+  rcases parseToken_ok wt s with h | ⟨_, _, h, _⟩ <;> rw [h] <;> exact fun e => nomatch e
+
+theorem parseToken_tokenOk (wt : WText W) (s : Bytes) (t : Token W) (h : parseToken wt s = .ok t) :
+    TokenOk t.kind ∧ ∃ rest, isWeightSuffix rest = true ∧ t.prob = sufW wt rest := by
+  rcases parseToken_ok wt s with h' | ⟨kind, rest, h', hk, hs⟩
+  · rw [h'] at h; cases h
+  · rw [h'] at h; cases h; exact ⟨hk, rest, hs, rfl⟩
+
+/-! ### combos of a rank pair, expansion of a token -/
+
+theorem comboOk_mkPair (l r : Card) (hl : l.valid = true) (hr : r.valid = true) (hne : l ≠ r) :
+    ComboOk (mkPair l r) := by
+  obtain ⟨_, hlt, hc⟩ := C14.pair_canonical l r hne
+  rcases hc with ⟨h1, h2⟩ | ⟨h1, h2⟩
+  · exact ⟨by rw [h1]; exact hl, by rw [h2]; exact hr, hlt⟩
+  · exact ⟨by rw [h1]; exact hr, by rw [h2]; exact hl, hlt⟩
+
+theorem pocketSuits_facts : ∀ s ∈ Gen.pocketSuits, s.1 < 4 ∧ s.2 < 4 ∧ s.1 ≠ s.2 := by decide
+theorem suitedSuits_facts : ∀ s ∈ Gen.suitedSuits, s.1 < 4 ∧ s.2 < 4 := by decide
+theorem ofsuitSuits_facts : ∀ s ∈ Gen.ofsuitSuits, s.1 < 4 ∧ s.2 < 4 := by decide
+
+theorem valid_mk (r s : Nat) (hr : r < 13) (hs : s < 4) : (⟨r, s⟩ : Card).valid = true := by
+  simp [Card.valid, hr, hs]
+
+theorem combos_pocket_ok (r : Nat) (hr : r < 13) : ∀ c ∈ (RankPair.pocket r).combos, ComboOk c := by
+  intro c hc
+  simp only [RankPair.combos, List.mem_map] at hc
+  obtain ⟨s, hs, rfl⟩ := hc
+  obtain ⟨h1, h2, h3⟩ := pocketSuits_facts s hs
+  exact comboOk_mkPair _ _ (valid_mk r _ hr h1) (valid_mk r _ hr h2) (by simp [h3])
+
+theorem combos_suited_ok (h k : Nat) (hh : h < 13) (hk : k < 13) (hne : h ≠ k) :
+    ∀ c ∈ (RankPair.suited h k).combos, ComboOk c := by
+  intro c hc
+  simp only [RankPair.combos, List.mem_map] at hc
+  obtain ⟨s, hs, rfl⟩ := hc
+  obtain ⟨h1, h2⟩ := suitedSuits_facts s hs
+  exact comboOk_mkPair _ _ (valid_mk h _ hh h1) (valid_mk k _ hk h2) (by simp [hne])
+
+theorem combos_ofsuit_ok (h k : Nat) (hh : h < 13) (hk : k < 13) (hne : h ≠ k) :
+    ∀ c ∈ (RankPair.ofsuit h k).combos, ComboOk c := by
+  intro c hc
+  simp only [RankPair.combos, List.mem_map] at hc
+  obtain ⟨s, hs, rfl⟩ := hc
+  obtain ⟨h1, h2⟩ := ofsuitSuits_facts s hs
+  exact comboOk_mkPair _ _ (valid_mk h _ hh h1) (valid_mk k _ hk h2) (by simp [hne])
+
+/-- the run of an in-order inclusive rank range -/
+theorem expandRun_eq (a b : Nat) (mk : Nat → RankPair) (p : W) (hab : a ≤ b) (hb : b < 13) :
+    expandRun a b mk p
+      = .ok ((List.range' a (b + 1 - a)).flatMap fun r => (mk r).combos.map fun cp => (cp, p)) := by
+  simp only [expandRun, (C13.rank_range_run a b (by omega) hb hab).2]
+
+theorem expandRun_ok (a b : Nat) (mk : Nat → RankPair) (p : W) (hab : a ≤ b) (hb : b < 13)
+    (hmk : ∀ r, a ≤ r → r ≤ b → ∀ c ∈ (mk r).combos, ComboOk c) :
+    ∃ es, expandRun a b mk p = .ok es ∧ ∀ e ∈ es, ComboOk e.1 ∧ e.2 = p := by
+  refine ⟨_, expandRun_eq a b mk p hab hb, ?_⟩
+  intro e he
+  simp only [List.mem_flatMap, List.mem_map, List.mem_range'_1] at he
+  obtain ⟨r, ⟨h1, h2⟩, c, hc, rfl⟩ := he
+  exact ⟨hmk r h1 (by omega) c hc, rfl⟩
+
+theorem rankNext_lt (h : Nat) (hh : h + 1 < 13) : rankNext h = some (h + 1) := by
+  have := (C13.rank_next_prev h (by omega)).1
+  rw [this, if_pos hh]
+
+/-- a well-formed token expands, without panicking, into real combos all carrying its weight -/
+theorem expand_ok (t : Token W) (h : TokenOk t.kind) :
+    ∃ es, t.expand = .ok es ∧ ∀ e ∈ es, ComboOk e.1 ∧ e.2 = t.prob := by
+  obtain ⟨kind, p⟩ := t
+  simp only at h ⊢
+  match kind, h with
+  | .doubleClosed (.pocket top) bottom, h =>
+    obtain ⟨h1, h2⟩ := h
+    exact expandRun_ok top bottom .pocket p h1 h2 (fun r _ hr => combos_pocket_ok r (by omega))
+  | .doubleClosed (.suited hi kt) kb, h =>
+    obtain ⟨h1, h2, h3⟩ := h
+    exact expandRun_ok kt kb (.suited hi) p (by omega) h3
+      (fun r _ hr => combos_suited_ok hi r (by omega) (by omega) (by omega))
+  | .doubleClosed (.ofsuit hi kt) kb, h =>
+    obtain ⟨h1, h2, h3⟩ := h
+    exact expandRun_ok kt kb (.ofsuit hi) p (by omega) h3
+      (fun r _ hr => combos_ofsuit_ok hi r (by omega) (by omega) (by omega))
+  | .bottomClosed (.pocket r), h =>
+    have h' : r < 13 := h
+    exact expandRun_ok rankAce r .pocket p (Nat.zero_le _) h (fun r' _ hr => combos_pocket_ok r' (by omega))
+  | .bottomClosed (.suited hi k), h =>
+    obtain ⟨h1, h2⟩ := h
+    simp only [Token.expand, rankNext_lt hi (by omega)]
+    exact expandRun_ok (hi + 1) k (.suited hi) p (by omega) h2
+      (fun r _ hr => combos_suited_ok hi r (by omega) (by omega) (by omega))
+  | .bottomClosed (.ofsuit hi k), h =>
+    obtain ⟨h1, h2⟩ := h
+    simp only [Token.expand, rankNext_lt hi (by omega)]
+    exact expandRun_ok (hi + 1) k (.ofsuit hi) p (by omega) h2
+      (fun r _ hr => combos_ofsuit_ok hi r (by omega) (by omega) (by omega))
+  | .singleRank (.pocket r), h =>
+    refine ⟨_, rfl, fun e he => ?_⟩
+    simp only [List.mem_map] at he
+    obtain ⟨c, hc, rfl⟩ := he
+    exact ⟨combos_pocket_ok r h c hc, rfl⟩
+  | .singleRank (.suited x y), h =>
+    obtain ⟨h1, h2, h3⟩ := h
+    refine ⟨_, rfl, fun e he => ?_⟩
+    simp only [List.mem_map] at he
+    obtain ⟨c, hc, rfl⟩ := he
+    exact ⟨combos_suited_ok x y h2 h3 h1 c hc, rfl⟩
+  | .singleRank (.ofsuit x y), h =>
+    obtain ⟨h1, h2, h3⟩ := h
+    refine ⟨_, rfl, fun e he => ?_⟩
+    simp only [List.mem_map] at he
+    obtain ⟨c, hc, rfl⟩ := he
+    exact ⟨combos_ofsuit_ok x y h2 h3 h1 c hc, rfl⟩
+  | .singleCard cp, h =>
+    obtain ⟨l, r, hl, hr, hne, rfl⟩ := h
+    refine ⟨_, rfl, fun e he => ?_⟩
+    simp only [List.mem_singleton] at he
+    subst he
+    exact ⟨comboOk_mkPair l r hl hr hne, rfl⟩
+
 end EspadaVerif.TokenFacts
